@@ -8,7 +8,9 @@ import (
 	"fmt"
 	"go/ast"
 	"go/token"
+	"math/big"
 	"regexp"
+	"strconv"
 	"strings"
 
 	. "verifharness/genlib"
@@ -17,7 +19,8 @@ import (
 func main() {
 	repo := Repo()
 	Header(repo)
-	fmt.Println("From Coq Require Import String List. Import ListNotations. Open Scope string_scope.")
+	fmt.Println("From Coq Require Import String List ZArith. Import ListNotations. Open Scope string_scope.")
+	fmt.Println("Require Import Nib.C18.Model.")
 
 	// ---- ante chain of NewAnteHandlerNonEVM
 	app := ParseDir(repo + "/app")
@@ -397,6 +400,651 @@ func main() {
 		}
 		fmt.Printf("Definition signer_field_%s : string := %s.\n", mt, CoqString(field))
 	}
+	// ---- module parameters: what Sanitize rewrites, the defaults, and who reads / stores through it
+	paramFacts(repo, types, kf, kpkg)
+}
+
+// ---------------------------------------------------------------- ModuleParams.Sanitize as guarded rewrites
+//
+// Sanitize is read as a straight-line list of "if <cond> { <copy>.<Field> = <default of Field> … [return …] }"
+// statements over a working copy of the receiver (newP := new(T); *newP = p / c := p / the value receiver itself).
+// Conditions are boolean combinations of: .EnableFeeShare, .DeveloperShares.IsZero(), .DeveloperShares.IsNil(),
+// len(.AllowedDenoms) ==/!=/> 0, and calls of ModuleParams methods whose body is one `return <cond>` (inlined).
+// Everything else is printed as PcUnknown / noted, and devgas_sanitize_understood becomes false.  Local names, the
+// pointer-vs-value style of the copy and helper methods do not change the fact.
+
+type sanEnv struct {
+	recv      string
+	recvCopy  bool            // the value receiver itself is assigned to: it is the working copy
+	copies    map[string]bool // locals that hold the working copy (value or pointer)
+	fixedBase string          // inside an inlined method: base of its receiver
+	methods   map[string]*ast.FuncDecl
+	notes     *[]string
+	ok        *bool
+}
+
+func stripExpr(e ast.Expr) ast.Expr {
+	for {
+		switch x := e.(type) {
+		case *ast.ParenExpr:
+			e = x.X
+		case *ast.StarExpr:
+			e = x.X
+		default:
+			return e
+		}
+	}
+}
+
+func (se *sanEnv) baseOf(e ast.Expr) string {
+	id, ok := stripExpr(e).(*ast.Ident)
+	if !ok {
+		return ""
+	}
+	if id.Name == se.recv {
+		if se.fixedBase != "" {
+			return se.fixedBase
+		}
+		if se.recvCopy {
+			return "copy"
+		}
+		return "orig"
+	}
+	if se.copies[id.Name] {
+		return "copy"
+	}
+	return ""
+}
+
+func (se *sanEnv) fieldRef(e ast.Expr) (base, field string) {
+	sel, ok := stripExpr(e).(*ast.SelectorExpr)
+	if !ok {
+		return "", ""
+	}
+	if b := se.baseOf(sel.X); b != "" {
+		return b, sel.Sel.Name
+	}
+	return "", ""
+}
+
+func (se *sanEnv) unknown(e ast.Node) string {
+	*se.ok = false
+	*se.notes = append(*se.notes, "cond? "+Nospace(e))
+	return "PcUnknown"
+}
+
+func (se *sanEnv) cond(e ast.Expr, bases map[string]bool, depth int) string {
+	if depth > 8 {
+		return se.unknown(e)
+	}
+	switch x := e.(type) {
+	case *ast.ParenExpr:
+		return se.cond(x.X, bases, depth+1)
+	case *ast.UnaryExpr:
+		if x.Op == token.NOT {
+			return "(PcNot " + se.cond(x.X, bases, depth+1) + ")"
+		}
+	case *ast.SelectorExpr:
+		if b, f := se.fieldRef(x); f == "EnableFeeShare" {
+			bases[b] = true
+			return "PcEnabled"
+		}
+	case *ast.BinaryExpr:
+		switch x.Op {
+		case token.LAND:
+			return "(PcAnd " + se.cond(x.X, bases, depth+1) + " " + se.cond(x.Y, bases, depth+1) + ")"
+		case token.LOR:
+			return "(PcOr " + se.cond(x.X, bases, depth+1) + " " + se.cond(x.Y, bases, depth+1) + ")"
+		case token.EQL, token.NEQ, token.GTR, token.LSS:
+			l, r, op := x.X, x.Y, x.Op
+			if Nospace(l) == "0" || Nospace(l) == "true" || Nospace(l) == "false" {
+				l, r = r, l
+				if op == token.GTR {
+					op = token.LSS
+				} else if op == token.LSS {
+					op = token.GTR
+				}
+			}
+			if c, ok := stripExpr(l).(*ast.CallExpr); ok && Nospace(c.Fun) == "len" && len(c.Args) == 1 && Nospace(r) == "0" {
+				if b, f := se.fieldRef(c.Args[0]); f == "AllowedDenoms" {
+					bases[b] = true
+					switch op {
+					case token.EQL:
+						return "PcAllowedEmpty"
+					case token.NEQ, token.GTR:
+						return "(PcNot PcAllowedEmpty)"
+					}
+				}
+			}
+			if b, f := se.fieldRef(l); f == "EnableFeeShare" && (op == token.EQL || op == token.NEQ) {
+				bases[b] = true
+				pos := (Nospace(r) == "true") == (op == token.EQL)
+				if Nospace(r) == "true" || Nospace(r) == "false" {
+					if pos {
+						return "PcEnabled"
+					}
+					return "(PcNot PcEnabled)"
+				}
+			}
+		}
+	case *ast.CallExpr:
+		sel, ok := x.Fun.(*ast.SelectorExpr)
+		if !ok || len(x.Args) != 0 {
+			break
+		}
+		if b, f := se.fieldRef(sel.X); f == "DeveloperShares" {
+			switch sel.Sel.Name {
+			case "IsZero":
+				bases[b] = true
+				return "PcShareZero"
+			case "IsNil":
+				bases[b] = true
+				return "PcShareNil"
+			}
+		}
+		// a ModuleParams method with a single `return <cond>` body
+		if b := se.baseOf(sel.X); b != "" {
+			if m := se.methods[sel.Sel.Name]; m != nil && m.Body != nil && len(m.Body.List) == 1 && m.Recv != nil &&
+				len(m.Recv.List) == 1 && len(m.Recv.List[0].Names) == 1 && m.Type.Params.NumFields() == 0 {
+				if r, ok := m.Body.List[0].(*ast.ReturnStmt); ok && len(r.Results) == 1 {
+					sub := &sanEnv{recv: m.Recv.List[0].Names[0].Name, fixedBase: b, copies: map[string]bool{},
+						methods: se.methods, notes: se.notes, ok: se.ok}
+					return sub.cond(r.Results[0], bases, depth+1)
+				}
+			}
+		}
+	}
+	return se.unknown(e)
+}
+
+func methodsOf(files []File, recv string) map[string]*ast.FuncDecl {
+	m := map[string]*ast.FuncDecl{}
+	for _, fl := range files {
+		for _, d := range fl.F.Decls {
+			fd, ok := d.(*ast.FuncDecl)
+			if !ok || fd.Recv == nil || len(fd.Recv.List) != 1 {
+				continue
+			}
+			if strings.TrimPrefix(Nospace(fd.Recv.List[0].Type), "*") == recv {
+				m[fd.Name.Name] = fd
+			}
+		}
+	}
+	return m
+}
+
+func pkgValues(files []File) map[string]ast.Expr {
+	m := map[string]ast.Expr{}
+	for _, fl := range files {
+		for _, d := range fl.F.Decls {
+			gd, ok := d.(*ast.GenDecl)
+			if !ok || (gd.Tok != token.VAR && gd.Tok != token.CONST) {
+				continue
+			}
+			for _, sp := range gd.Specs {
+				vs, ok := sp.(*ast.ValueSpec)
+				if !ok {
+					continue
+				}
+				for i, n := range vs.Names {
+					if i < len(vs.Values) {
+						m[n.Name] = vs.Values[i]
+					}
+				}
+			}
+		}
+	}
+	return m
+}
+
+func resolveVal(e ast.Expr, vals map[string]ast.Expr) ast.Expr {
+	for i := 0; i < 6; i++ {
+		switch x := e.(type) {
+		case *ast.ParenExpr:
+			e = x.X
+			continue
+		case *ast.Ident:
+			if v, ok := vals[x.Name]; ok {
+				e = v
+				continue
+			}
+		case *ast.SelectorExpr: // types.DefaultX
+			if id, ok := x.X.(*ast.Ident); ok && id.Name == "types" {
+				if v, ok := vals[x.Sel.Name]; ok {
+					e = v
+					continue
+				}
+			}
+		}
+		break
+	}
+	return e
+}
+
+var pow18 = new(big.Int).Exp(big.NewInt(10), big.NewInt(18), nil)
+
+// decValue: raw LegacyDec integer (value * 10^18) of a constructor call
+func decValue(e ast.Expr) (*big.Int, bool) {
+	c, ok := e.(*ast.CallExpr)
+	if !ok {
+		return nil, false
+	}
+	name := Nospace(c.Fun)
+	if i := strings.LastIndex(name, "."); i >= 0 {
+		name = name[i+1:]
+	}
+	name = strings.TrimPrefix(name, "Legacy")
+	intArg := func(k int) (*big.Int, bool) {
+		if k >= len(c.Args) {
+			return nil, false
+		}
+		v, ok := new(big.Int).SetString(strings.ReplaceAll(Nospace(c.Args[k]), "_", ""), 10)
+		return v, ok
+	}
+	switch name {
+	case "ZeroDec":
+		return big.NewInt(0), len(c.Args) == 0
+	case "OneDec":
+		return new(big.Int).Set(pow18), len(c.Args) == 0
+	case "NewDec":
+		if a, ok := intArg(0); ok && len(c.Args) == 1 {
+			return a.Mul(a, pow18), true
+		}
+	case "NewDecWithPrec":
+		a, ok1 := intArg(0)
+		b, ok2 := intArg(1)
+		if ok1 && ok2 && len(c.Args) == 2 && b.Sign() >= 0 && b.Int64() <= 18 {
+			return a.Mul(a, new(big.Int).Exp(big.NewInt(10), big.NewInt(18-b.Int64()), nil)), true
+		}
+	case "MustNewDecFromStr":
+		if len(c.Args) == 1 {
+			if lit, ok := c.Args[0].(*ast.BasicLit); ok && lit.Kind == token.STRING {
+				str, err := strconv.Unquote(lit.Value)
+				if err != nil {
+					return nil, false
+				}
+				r, ok := new(big.Rat).SetString(str)
+				if !ok {
+					return nil, false
+				}
+				r.Mul(r, new(big.Rat).SetInt(pow18))
+				if r.IsInt() {
+					return new(big.Int).Set(r.Num()), true
+				}
+			}
+		}
+	}
+	return nil, false
+}
+
+var c18DenomIds = map[string]int{"uatom": 0, "ufoo": 1, "unibi": 2}
+
+// stringList: []string{"a","b"} / []string(nil) / nil  ->  denom ids
+func stringList(e ast.Expr) ([]int, bool) {
+	switch x := e.(type) {
+	case *ast.Ident:
+		return nil, x.Name == "nil"
+	case *ast.CallExpr:
+		if Nospace(x.Fun) == "[]string" && len(x.Args) == 1 && Nospace(x.Args[0]) == "nil" {
+			return nil, true
+		}
+	case *ast.CompositeLit:
+		if Nospace(x.Type) != "[]string" {
+			return nil, false
+		}
+		var out []int
+		next := 3
+		for _, el := range x.Elts {
+			lit, ok := el.(*ast.BasicLit)
+			if !ok || lit.Kind != token.STRING {
+				return nil, false
+			}
+			str, _ := strconv.Unquote(lit.Value)
+			if id, ok := c18DenomIds[str]; ok {
+				out = append(out, id)
+			} else {
+				out = append(out, next)
+				next++
+			}
+		}
+		return out, true
+	}
+	return nil, false
+}
+
+func coqNatList(xs []int) string {
+	var p []string
+	for _, x := range xs {
+		p = append(p, fmt.Sprintf("%d%%nat", x))
+	}
+	return "[" + strings.Join(p, "; ") + "]"
+}
+
+func paramFacts(repo string, types []File, kf map[string]*ast.FuncDecl, kpkg *pkgInfo) {
+	tf := Funcs(types)
+	vals := pkgValues(types)
+	var notes []string
+	understood := true
+
+	// ---- types.DefaultParams()
+	defEnabled, defShare, defAllowed := false, big.NewInt(0), []int(nil)
+	defOK := false
+	if fd := tf["DefaultParams"]; fd != nil && fd.Recv == nil && fd.Body != nil && len(fd.Body.List) == 1 {
+		if r, ok := fd.Body.List[0].(*ast.ReturnStmt); ok && len(r.Results) == 1 {
+			fields := map[string]ast.Expr{}
+			switch x := r.Results[0].(type) {
+			case *ast.CompositeLit:
+				for _, el := range x.Elts {
+					if kv, ok := el.(*ast.KeyValueExpr); ok {
+						fields[Nospace(kv.Key)] = kv.Value
+					}
+				}
+			case *ast.CallExpr: // NewParams(a, b, c): follow NewParams' own composite literal
+				if np := tf[Nospace(x.Fun)]; np != nil && np.Body != nil && len(np.Body.List) == 1 {
+					idx := map[string]int{}
+					k := 0
+					for _, f := range np.Type.Params.List {
+						for _, n := range f.Names {
+							idx[n.Name] = k
+							k++
+						}
+					}
+					if rr, ok := np.Body.List[0].(*ast.ReturnStmt); ok && len(rr.Results) == 1 {
+						if cl, ok := rr.Results[0].(*ast.CompositeLit); ok {
+							for _, el := range cl.Elts {
+								if kv, ok := el.(*ast.KeyValueExpr); ok {
+									if i, ok := idx[Nospace(kv.Value)]; ok && i < len(x.Args) {
+										fields[Nospace(kv.Key)] = x.Args[i]
+									}
+								}
+							}
+						}
+					}
+				}
+			}
+			e1, e2, e3 := resolveVal(fields["EnableFeeShare"], vals), resolveVal(fields["DeveloperShares"], vals), resolveVal(fields["AllowedDenoms"], vals)
+			ok1 := e1 != nil && (Nospace(e1) == "true" || Nospace(e1) == "false")
+			if ok1 {
+				defEnabled = Nospace(e1) == "true"
+			}
+			v, ok2 := decValue(e2)
+			if ok2 {
+				defShare = v
+			}
+			l, ok3 := []int(nil), false
+			if e3 != nil {
+				l, ok3 = stringList(e3)
+			}
+			if ok3 {
+				defAllowed = l
+			}
+			defOK = ok1 && ok2 && ok3
+		}
+	}
+	if !defOK {
+		notes = append(notes, "DefaultParams() not understood")
+	}
+	fmt.Printf("Definition devgas_default_params : params := {| p_enabled := %s; p_share := (%s)%%Z; p_allowed := %s |}.\n",
+		CoqBool(defEnabled), defShare.String(), coqNatList(defAllowed))
+	fmt.Printf("Definition devgas_default_params_understood : bool := %s.\n", CoqBool(defOK))
+
+	// ---- ModuleParams.Sanitize
+	methods := methodsOf(types, "ModuleParams")
+	type rule struct {
+		cond   string
+		onCopy bool
+		set    []string
+		stop   bool
+	}
+	var rules []rule
+	fieldCtor := map[string]string{"EnableFeeShare": "FEnabled", "DeveloperShares": "FShare", "AllowedDenoms": "FAllowed"}
+	if fd := methods["Sanitize"]; fd == nil || fd.Body == nil || len(fd.Recv.List[0].Names) != 1 {
+		understood = false
+		notes = append(notes, "ModuleParams.Sanitize not found")
+	} else {
+		se := &sanEnv{recv: fd.Recv.List[0].Names[0].Name, copies: map[string]bool{}, methods: methods, notes: &notes, ok: &understood}
+		pendingPtr := map[string]bool{}
+		ast.Inspect(fd.Body, func(n ast.Node) bool {
+			if as, ok := n.(*ast.AssignStmt); ok {
+				for _, l := range as.Lhs {
+					if sel, ok := l.(*ast.SelectorExpr); ok {
+						if id, ok := sel.X.(*ast.Ident); ok && id.Name == se.recv {
+							se.recvCopy = true
+						}
+					}
+				}
+			}
+			return true
+		})
+		modified := false
+		isDefaultOf := func(field string, rhs ast.Expr) bool {
+			t := strings.TrimPrefix(Nospace(rhs), "types.")
+			if t == "Default"+field || t == "DefaultParams()."+field {
+				return true
+			}
+			if field == "AllowedDenoms" && defOK && len(defAllowed) == 0 {
+				if l, ok := stringList(rhs); ok && len(l) == 0 {
+					return true
+				}
+			}
+			return false
+		}
+		// assignment `<copy>.<Field> = <default>`: the rewritten field, "" when it is something else
+		fieldSet := func(st ast.Stmt) string {
+			as, ok := st.(*ast.AssignStmt)
+			if !ok || as.Tok != token.ASSIGN || len(as.Lhs) != 1 || len(as.Rhs) != 1 {
+				return ""
+			}
+			b, f := se.fieldRef(as.Lhs[0])
+			if b != "copy" || fieldCtor[f] == "" || !isDefaultOf(f, as.Rhs[0]) {
+				return ""
+			}
+			return fieldCtor[f]
+		}
+		isCopyExpr := func(e ast.Expr) bool { return se.baseOf(e) != "" }
+		isDefaultParamsCall := func(e ast.Expr) bool {
+			return strings.TrimPrefix(Nospace(e), "types.") == "DefaultParams()"
+		}
+		bad := func(n ast.Node) {
+			understood = false
+			notes = append(notes, "stmt? "+Nospace(n))
+		}
+		all := []string{"FEnabled", "FShare", "FAllowed"}
+		done := false
+		for _, st := range fd.Body.List {
+			if done {
+				bad(st)
+				continue
+			}
+			switch x := st.(type) {
+			case *ast.AssignStmt:
+				if len(x.Lhs) == 1 && len(x.Rhs) == 1 {
+					lhs, rhs := x.Lhs[0], x.Rhs[0]
+					if id, ok := lhs.(*ast.Ident); ok && x.Tok == token.DEFINE {
+						if c, ok := rhs.(*ast.CallExpr); ok && Nospace(c.Fun) == "new" {
+							pendingPtr[id.Name] = true
+							continue
+						}
+						if u, ok := rhs.(*ast.UnaryExpr); ok && u.Op == token.AND {
+							if cl, ok := u.X.(*ast.CompositeLit); ok && len(cl.Elts) == 0 {
+								pendingPtr[id.Name] = true
+								continue
+							}
+							if rid, ok := u.X.(*ast.Ident); ok && rid.Name == se.recv { // c := &p
+								se.copies[id.Name] = true
+								se.recvCopy = true
+								continue
+							}
+						}
+						if rid, ok := rhs.(*ast.Ident); ok && rid.Name == se.recv && !modified {
+							se.copies[id.Name] = true
+							continue
+						}
+					}
+					if star, ok := lhs.(*ast.StarExpr); ok && x.Tok == token.ASSIGN {
+						if id, ok := star.X.(*ast.Ident); ok && pendingPtr[id.Name] {
+							if rid, ok := rhs.(*ast.Ident); ok && rid.Name == se.recv && !modified {
+								se.copies[id.Name] = true
+								continue
+							}
+						}
+					}
+					if f := fieldSet(x); f != "" {
+						rules = append(rules, rule{"PcTrue", true, []string{f}, false})
+						modified = true
+						continue
+					}
+				}
+				bad(st)
+			case *ast.DeclStmt:
+				handled := false
+				if gd, ok := x.Decl.(*ast.GenDecl); ok && gd.Tok == token.VAR && len(gd.Specs) == 1 {
+					if vs, ok := gd.Specs[0].(*ast.ValueSpec); ok && len(vs.Names) == 1 {
+						if len(vs.Values) == 1 {
+							if rid, ok := vs.Values[0].(*ast.Ident); ok && rid.Name == se.recv && !modified {
+								se.copies[vs.Names[0].Name] = true
+								handled = true
+							}
+						}
+					}
+				}
+				if !handled {
+					bad(st)
+				}
+			case *ast.IfStmt:
+				if x.Init != nil || x.Else != nil {
+					bad(st)
+					continue
+				}
+				bases := map[string]bool{}
+				c := se.cond(x.Cond, bases, 0)
+				onCopy := true
+				switch {
+				case bases["orig"] && bases["copy"] && modified:
+					understood = false
+					notes = append(notes, "cond reads both the receiver and the copy: "+Nospace(x.Cond))
+				case bases["orig"] && !bases["copy"]:
+					onCopy = !modified
+				}
+				r := rule{cond: c, onCopy: onCopy}
+				for i, bs := range x.Body.List {
+					if f := fieldSet(bs); f != "" {
+						r.set = append(r.set, f)
+						continue
+					}
+					if ret, ok := bs.(*ast.ReturnStmt); ok && i == len(x.Body.List)-1 && len(ret.Results) == 1 {
+						switch {
+						case isDefaultParamsCall(ret.Results[0]):
+							r.set = all
+							r.stop = true
+							continue
+						case isCopyExpr(ret.Results[0]):
+							r.stop = true
+							continue
+						}
+					}
+					bad(bs)
+				}
+				rules = append(rules, r)
+				if !r.stop && len(r.set) > 0 {
+					modified = true
+				}
+			case *ast.ReturnStmt:
+				done = true
+				switch {
+				case len(x.Results) == 1 && isCopyExpr(x.Results[0]):
+				case len(x.Results) == 1 && isDefaultParamsCall(x.Results[0]):
+					rules = append(rules, rule{"PcTrue", true, all, true})
+				default:
+					bad(st)
+				}
+			default:
+				bad(st)
+			}
+		}
+		if !done {
+			understood = false
+			notes = append(notes, "Sanitize does not end in a return")
+		}
+	}
+	fmt.Print("Definition devgas_sanitize_rules : list san_rule := [")
+	for i, r := range rules {
+		if i > 0 {
+			fmt.Print("; ")
+		}
+		fmt.Printf("{| sr_cond := %s; sr_on_copy := %s; sr_set := [%s]; sr_stop := %s |}", r.cond, CoqBool(r.onCopy), strings.Join(r.set, "; "), CoqBool(r.stop))
+	}
+	fmt.Println("].")
+	fmt.Printf("Definition devgas_sanitize_understood : bool := %s.\n", CoqBool(understood))
+	printList("devgas_sanitize_notes", notes)
+
+	// ---- who reads and who stores through Sanitize
+	// Keeper.GetParams: the returned expression
+	getRet := ""
+	if fd := kf["GetParams"]; fd != nil && fd.Body != nil {
+		sc := newScope(kpkg, fd)
+		for _, st := range fd.Body.List {
+			if r, ok := st.(*ast.ReturnStmt); ok && len(r.Results) == 1 {
+				getRet = sc.resolve(r.Results[0], 0)
+			}
+		}
+	}
+	fmt.Printf("Definition getparams_returns : string := %s.\n", CoqString(getRet))
+	// what a function hands to ModuleParams.Set, and on what it called Validate() before
+	storeFacts := func(pkg *pkgInfo, fd *ast.FuncDecl) (string, []string) {
+		stored, setPos := "", token.Pos(0)
+		var validated []string
+		if fd == nil || fd.Body == nil {
+			return "", nil
+		}
+		sc := newScope(pkg, fd)
+		ast.Inspect(fd.Body, func(n ast.Node) bool {
+			if c, ok := n.(*ast.CallExpr); ok && strings.HasSuffix(sc.funName(c.Fun), ".ModuleParams.Set") && len(c.Args) == 2 {
+				if stored == "" {
+					stored, setPos = sc.resolve(c.Args[1], 0), c.Pos()
+				} else {
+					stored += " | " + sc.resolve(c.Args[1], 0)
+				}
+			}
+			return true
+		})
+		ast.Inspect(fd.Body, func(n ast.Node) bool {
+			if c, ok := n.(*ast.CallExpr); ok && len(c.Args) == 0 && (setPos == 0 || c.Pos() < setPos) {
+				if sel, ok := c.Fun.(*ast.SelectorExpr); ok && sel.Sel.Name == "Validate" {
+					validated = append(validated, sc.resolve(sel.X, 0))
+				}
+			}
+			return true
+		})
+		return stored, validated
+	}
+	st, va := storeFacts(kpkg, kf["UpdateParams"])
+	fmt.Printf("Definition update_params_stores : string := %s.\n", CoqString(st))
+	printList("update_params_validates", va)
+	mod := ParseDir(repo + "/x/devgas/v1")
+	mf := map[string]*ast.FuncDecl{} // plain functions only (AppModule has an InitGenesis method as well)
+	for _, fl := range mod {
+		for _, d := range fl.F.Decls {
+			if fd, ok := d.(*ast.FuncDecl); ok && fd.Recv == nil {
+				mf[fd.Name.Name] = fd
+			}
+		}
+	}
+	st, va = storeFacts(&pkgInfo{funcs: mf}, mf["InitGenesis"])
+	fmt.Printf("Definition init_genesis_stores : string := %s.\n", CoqString(st))
+	printList("init_genesis_validates", va)
+	// GenesisState.Validate checks the params
+	gsChecks := false
+	if fd := methodsOf(types, "GenesisState")["Validate"]; fd != nil && fd.Body != nil {
+		sc := newScope(&pkgInfo{funcs: tf}, fd)
+		ast.Inspect(fd.Body, func(n ast.Node) bool {
+			if c, ok := n.(*ast.CallExpr); ok && sc.resolve(c, 0) == "R.Params.Validate()" {
+				gsChecks = true
+			}
+			return true
+		})
+	}
+	fmt.Printf("Definition genesis_validate_checks_params : bool := %s.\n", CoqBool(gsChecks))
 }
 
 // ---------------------------------------------------------------- a small expression normaliser
